@@ -113,12 +113,12 @@ def stored_vs_current():
     return ok, (str(d1), str(d2))
 
 
-def upgrade(driver, tracer=None):
+def upgrade(driver, tracer=None, db='default'):
     B.reset_globals()
     if driver == 'D2':
-        return D.d2_all(tracer=tracer)
+        return D.d2_all(tracer=tracer, db=db)
     if driver == 'D3':
-        return D.d3(tracer=tracer)
+        return D.d3(tracer=tracer, db=db)
     if driver == 'D4':
-        return D.d4(tracer=tracer)
+        return D.d4(tracer=tracer, db=db)
     raise ValueError(driver)
